@@ -141,4 +141,12 @@ REPLAY(deep_leq_top) { return leq(wit); }
 REPLAY(deep_leq_bot) { return leq(wit); }
 REPLAY(deep_leq_self) { return leq_same(wit, false); }
 REPLAY(deep_leq_copy) { return leq_same(wit, true); }
+// the unbounded leaf-level contracts: a real leaf with the witness key / value
+typedef ikos::patricia_trees_impl::leaf<K, V, std::equal_to<V>> LEAF;
+REPLAY(leaf_find) { LEAF l(K(wit.u("l.f1.f1")), V(wit.u("l.f2.f0"))); K k(wit.u("k.f1")); const V *p = l.find(k);
+  return p == (l._key.i == k.i ? &l._value : nullptr); }
+REPLAY(leaf_lookup) { LEAF l(K(wit.u("l.f1.f1")), V(wit.u("l.f2.f0"))); K k(wit.u("k.f1")); boost::optional<V> r = l.lookup(k);
+  return (bool)r == (l._key.i == k.i) && (!r || r->v == l._value.v); }
+REPLAY(leaf_prefix) { LEAF l(K(wit.u("l.f1.f1")), V(wit.u("l.f2.f0")));
+  return l.prefix() == l._key.i && l.branching_bit() == 0 && l.is_leaf() && l.size() == 1; }
 int main(int argc, char **argv) { return replay_main(argc, argv); }
